@@ -276,4 +276,11 @@ def astOf : PgFunc → Func
           (blk [.ret .fls]) .nil,
         .case (armsOf cases) (blk [.ret .fls])] }
 
+/-- well-formed template instances (what the generator produces): integer enums test for numbers,
+string enums for strings; array lengths are -1 (slice) or a length -/
+def wf : PgFunc → Bool
+  | .enum _ kind isInt _ _ => kind == (if isInt then "number" else "string")
+  | .array _ _ len => decide (len ≥ -1)
+  | _ => true
+
 end Gomacro.PgAst
